@@ -314,6 +314,8 @@ pub struct FaultFired {
     pub in_drop: bool,
     pub seq: u64,
     pub off: u64,
+    /// first bytes of the buffer of a failed write
+    pub head: Vec<u8>,
 }
 
 /// Sentinel panic payload of the call budget.
@@ -480,6 +482,7 @@ impl DevState {
                         in_drop,
                         seq: self.seq,
                         off: self.pos,
+                        head: Vec::new(),
                     });
                     self.push(kind, self.pos, len, false, None);
                     return Err(DevError { code });
@@ -548,7 +551,14 @@ impl fatfs::Read for MonDev {
 impl fatfs::Write for MonDev {
     fn write(&mut self, buf: &[u8]) -> Result<usize, DevError> {
         let mut s = self.0.borrow_mut();
-        s.enter(EvKind::Write, buf.len() as u64)?;
+        if let Err(e) = s.enter(EvKind::Write, buf.len() as u64) {
+            if let Some(f) = &mut s.fired {
+                if f.head.is_empty() && f.kind == EvKind::Write {
+                    f.head = buf[..buf.len().min(8)].to_vec();
+                }
+            }
+            return Err(e);
+        }
         let pos = s.pos;
         if s.fail_writes {
             s.push(EvKind::Write, pos, buf.len() as u64, false, None);
